@@ -54,3 +54,21 @@ Definition w_opsem (k : opk) (vs : list Z) : Z :=
   | 30, [c; a; b] => if c =? 1 then a else b
   | _, _ => 0
   end.
+
+(* ---- the work of search_mapping: number of complete assignments it hands to valid_mapping (it validates only
+   when every mux is assigned, decode.py:search_mapping) *)
+Fixpoint search_cost (g G : pe) (muxes : list nat) (mu : nat -> Z) : nat :=
+  match muxes with
+  | [] => 1%nat
+  | m :: ms =>
+      match search g G ms (upd mu m 0) with
+      | Some None => (search_cost g G ms (upd mu m 0) + search_cost g G ms (upd mu m 1))%nat
+      | _ => search_cost g G ms (upd mu m 0)
+      end
+  end.
+
+(* a kernel body in SSA form whose signatures list one type per operand (get_id builds the key from the operand
+   types, so this holds for every real op; the converter's body records both) *)
+Definition arity_body (b : body) : bool :=
+  forallb (fun o => Nat.eqb (length (kargs o)) (length (fst (ksig o)))) (bops b).
+Definition body_total_ok (b : body) : bool := body_ok b && arity_body b.
